@@ -28,8 +28,9 @@ import Ops.Metadata
    <counts> `counts-ok`: the numbers of encoded points / faces the encoder model reports equal the decoded
             geometry's.
    <hyp>    (follow-up 4: `hyp-fails:` lists only what is still HYPOTHETICAL — `valueBlockHypsIso` (primed), `processedSize`,
-            `ctIsoSide`, `coverage`; what the theorems DERIVE from it — block invariance, `mdIso`, the unprimed
-            `valueBlockHyps`, the conclusion — is evaluated as a check of the theorems: `hyp-derived-fails:`.)
+            `ctIsoSide`; what the theorems DERIVE from it — block invariance, `mdIso`, the unprimed
+            `valueBlockHyps`, the conclusion, and since follow-up 5 `coverage` (traversal completeness,
+            `processed.size = num_faces − NumDegeneratedFaces`) — is evaluated as a check of the theorems: `hyp-derived-fails:`.)
             `hyp-ok`: every named hypothesis of the conditional theorems of DracoProps/C01Eb.lean holds on this
             case (`EbEnc.valueBlockHyps` for every value block: scheme kinds, block invariance under the change of
             mesh data, the decoder's parent attribute, sizes, int32 range, canonical normals, corner counts,
@@ -219,11 +220,12 @@ def hypsOf (ch : EbChoices) (o : EbOpts) (g : Geometry) (enc : Encoded) (mesh : 
                      (if concl then [] else ["conclusion"])
       (hyp.map tagOf, derived.map tagOf)
     let t := enc.conn.ct
-    let side := (if ctIsoSideOk t mesh.numFaces mesh.c2v then [] else ["ctIsoSide"]) ++
-                -- `hcover` of `eb_roundtrip_conditional`: the traversal reached every non-degenerate face
-                (if enc.conn.processed.size == t.numFaces - t.numDegenerated then [] else ["coverage"])
+    let side := (if ctIsoSideOk t mesh.numFaces mesh.c2v then [] else ["ctIsoSide"])
     let hyps := per.flatMap (·.1) ++ side
-    let derived := per.flatMap (·.2)
+    -- traversal completeness is a THEOREM since follow-up 5 (`Coverage.encodeConnectivity_size`, DracoProofs/EbCoverage.lean):
+    -- evaluated as a check of the theorem
+    let derived := per.flatMap (·.2) ++
+                   (if enc.conn.processed.size == t.numFaces - t.numDegenerated then [] else ["coverage"])
     if !hyps.isEmpty then "hyp-fails:" ++ ",".intercalate hyps
     else if !derived.isEmpty then "hyp-derived-fails:" ++ ",".intercalate derived
     else "hyp-ok"
